@@ -233,3 +233,23 @@ def f6(ctx):
             ok = len(errs) == 1 and "InsufficientSpace" in show(errs[0]["value"])
             pops_under_none = [e for e in res.log if e["kind"] == "call" and re.search(r"alloc_slow_path_", e["callee"]) and any(f[0] == "discr" and f[1] == field(SELF, "freelist") and f[2] == ("eq", 0) for f in ctx.facts_of(ev, e))]
             yield Ob(key_of("C10-F6", b.path, "none-fails-without-pop"), ok and not pops_under_none, "Freelist::None arm: Err(InsufficientSpace), no pop body called", b.loc())
+
+
+@rule("C10-F7", "C10", 2, "the bump path hands out [cursor, cursor + n) without looking at the list, so every linked segment must lie below the cursor: an operation that can lower "
+      "the cursor below a linked segment (rewind) has to drop those segments from the list (or the list has to be empty / of kind None); otherwise fresh allocations "
+      "overlay free-list nodes, the user's bytes are later read as node words, and the slow path hands out ranges inside live allocations", also=("C04",))
+def f7(ctx):
+    for fl in FLAVOURS:
+        b = ctx.facts.one(r"^<%s::Arena as allocator::Allocator>::rewind$" % fl)
+        ev, res = ctx.eval(b)
+        cur = [e for e in res.log if (e["kind"] == "call" and e.get("atomic") == "store" and "allocated" in show(e.get("target"))) or
+               (e["kind"] == "store" and e.get("how") == "store" and e["path"] and e["path"][-1] == "allocated")]
+        trims = [e for e in res.log if (e["kind"] == "call" and re.search(r"::(discard_freelist_in|discard_freelist)$", e["callee"])) or
+                 (e["kind"] == "call" and e.get("atomic") in ("store", "compare_exchange") and "sentinel" in show(e.get("target"))) or
+                 (e["kind"] == "store" and e.get("how") == "store" and "sentinel" in show((e["base"], e["path"])))]
+        none_guard = any(any(f[0] == "discr" and f[1] == field(SELF, "freelist") and f[2] == ("eq", 0) for f in ctx.facts_of(ev, e)) for e in cur)
+        ok = bool(cur) and (bool(trims) or none_guard)
+        yield Ob(key_of("C10-F7", b.path, "segments-above-new-cursor"), ok,
+                 "rewind stores the new cursor (%d site(s)) %s" % (len(cur), "and trims / empties the list" if trims else ("under Freelist::None only" if none_guard else
+                 "and leaves every segment linked, also those at or above the new cursor: after `free(a); rewind(Start(0)); alloc(everything)` the next slow-path allocation "
+                 "decodes user bytes as a node")), ctx.loc(cur[0]) if cur else b.loc())
